@@ -33,6 +33,19 @@ def cases(tier: str):
                     for prio in (((0,) * n,) if q else ((0,) * n, desc_prio(n))):
                         for is_async in ((False,) if q else (False, True)):
                             yield dict(n=n, es=es, seq=seq, res=res, mc=mc, prio=prio, is_async=is_async, ties=1 if q else None)
+    # early-completion slice: a pooled node may finish at any scheduler step (visible to code polling future.done())
+    for n in (2, 3, 4):
+        for es in shapes(n):
+            if n == 4 and len(es) > 1:
+                continue
+            for seq in seq_menu(n)[1:n + 1]:
+                ress = all_res(n) if n <= 3 else [r for r in all_res(n) if r.count("m") == 1] + ["tttt", "aaaa"]
+                for res in ress:
+                    if all(x == "m" for x in res):
+                        continue
+                    for mc in (2, 3):
+                        for is_async in ((False,) if q else (False, True)):
+                            yield dict(n=n, es=es, seq=seq, res=res, mc=mc, prio=(0,) * n, is_async=is_async, ties=0, early=1)
     if not q:
         n = 5
         for es in shapes(n):
